@@ -234,6 +234,14 @@ func (g *gen) instr(b *ssa.BasicBlock, idx int, ins ssa.Instruction) {
 	case *ssa.Range:
 		x := g.val(ins.X)
 		g.setVal(ins, Val{T: x.T, Sort: x.Sort, Typ: ins.X.Type()})
+		if mt, ok := ins.X.Type().Underlying().(*types.Map); ok {
+			// ghost set of the keys already produced by this iteration (each key is visited exactly once)
+			ks := g.st.sortOf(mt.Key())
+			key := "RG|" + ins.Name()
+			g.heapSet(key, arr(ks, "Bool"), "((as const "+arr(ks, "Bool")+") false)")
+			g.rangeSeen = key
+			g.rangeSeenSort = ks
+		}
 	case *ssa.Next:
 		g.next(ins)
 	case *ssa.Slice:
@@ -856,6 +864,16 @@ func (g *gen) next(ins *ssa.Next) {
 		if _, isMap := it.Typ.Underlying().(*types.Map); isMap {
 			g.assume(implies(ok.T, and(g.mapHas(it, k.T), eq(v.T, g.mapGet(it, k.T)))))
 			g.notePtr(v)
+			if rng, isR := ins.Iter.(*ssa.Range); isR {
+				key := "RG|" + rng.Name()
+				ks, vs, ds, _ := g.mapSorts(it.Typ)
+				seen := g.heapGet(key, arr(ks, "Bool"))
+				g.assume(implies(ok.T, not(app("select", seen, k.T))))
+				q := g.freshName("rk")
+				dom := app("select", g.heapGet(mapDomKey(ks, vs), ds), it.T)
+				g.assume(implies(not(ok.T), fmt.Sprintf("(forall ((%s %s)) (! (=> (select %s %s) (select %s %s)) :pattern ((select %s %s))))", q, ks, dom, q, seen, q, seen, q)))
+				g.heapSet(key, arr(ks, "Bool"), ite(ok.T, app("store", seen, k.T, "true"), seen))
+			}
 		}
 	}
 	g.vals[ins] = Val{Tuple: []Val{ok, k, v}}
